@@ -72,7 +72,7 @@ func (s *typeScan) Exit(n *ast.Node) {
 
 // allStaticallyTyped: does the library's own checker give every operand of src a concrete static type?
 // (The property's premise "all its operands are statically typed".)
-func allStaticallyTyped(src string) (ok bool) {
+func allStaticallyTyped(src string, ptrEnv ...bool) (ok bool) {
 	defer func() {
 		if r := recover(); r != nil {
 			ok = false
@@ -82,7 +82,11 @@ func allStaticallyTyped(src string) (ok bool) {
 	if err != nil {
 		return false
 	}
-	if _, err := checker.Check(tree, conf.New(core.Env{})); err != nil {
+	var sample interface{} = core.Env{}
+	if len(ptrEnv) > 0 && ptrEnv[0] {
+		sample = &core.Env{}
+	}
+	if _, err := checker.Check(tree, conf.New(sample)); err != nil {
 		return false
 	}
 	s := &typeScan{}
@@ -94,7 +98,12 @@ func judgeC03Sound(c *core.Case, cfg *core.Config) core.Verdict {
 	x, spec := c.X, c.Env
 	dir := c.Str("directive")
 	v := core.Verdict{Key: c.Source + "|" + spec.Digest() + dir}
+	ptrEnv := c.Bool("ptrenv")
 	opts := []expr.Option{expr.Env(core.Env{}), expr.Optimize(c.Bool("opt"))}
+	if ptrEnv {
+		// the environment is declared and passed by pointer: pointer-receiver methods are functions too
+		opts[0] = expr.Env(&core.Env{})
+	}
 	switch dir {
 	case "bool":
 		opts = append(opts, expr.AsBool())
@@ -113,12 +122,19 @@ func judgeC03Sound(c *core.Case, cfg *core.Config) core.Verdict {
 		return v
 	}
 	v.Classes = append(v.Classes, "directive:"+dir)
-	dynamic := !allStaticallyTyped(c.Source)
+	dynamic := !allStaticallyTyped(c.Source, ptrEnv)
 	if dynamic {
 		v.Classes = append(v.Classes, "has-dynamic-operand")
 	}
 	var ilog, rlog []string
-	out, rerr := run(p, spec.Build(&ilog))
+	mkenv := func(log *[]string) interface{} {
+		e := spec.Build(log)
+		if ptrEnv {
+			return &e
+		}
+		return e
+	}
+	out, rerr := run(p, mkenv(&ilog))
 	if rerr != nil && strings.HasPrefix(rerr.Error(), "PANIC") {
 		v.Violation = rerr.Error()
 		return v
@@ -128,7 +144,7 @@ func judgeC03Sound(c *core.Case, cfg *core.Config) core.Verdict {
 			v.Classes = append(v.Classes, "fails:not-judged(dynamic operand)")
 			return v
 		}
-		ref := core.RefEval(x, spec.Build(&rlog), core.RefOpts{Excl: cfg.Excl})
+		ref := core.RefEval(x, mkenv(&rlog), core.RefOpts{Excl: cfg.Excl})
 		msg := errMessage(rerr)
 		sig := false
 		for _, s := range valueSignatures {
@@ -463,6 +479,9 @@ func genC03Sound(t *rapid.T, cfg *core.Config) *core.Case {
 	g := core.NewGen(t, spec, rapid.IntRange(3, fuel).Draw(t, "fuel"), cfg.Excl)
 	g.Calls = rapid.IntRange(0, 9).Draw(t, "calls") < 4
 	g.Dyn = rapid.IntRange(0, 4).Draw(t, "dyn") == 0
+	// pointer-receiver methods: accepted (and callable) when the environment is a pointer, rejected when it is a
+	// value - whatever the process compiled before
+	g.PtrMethods = rapid.IntRange(0, 3).Draw(t, "ptrmethods") == 0
 	var x *core.X
 	if rapid.IntRange(0, 3).Draw(t, "const") == 0 {
 		x = g.ConstRoot()
@@ -474,6 +493,7 @@ func genC03Sound(t *rapid.T, cfg *core.Config) *core.Case {
 	p := &core.Printer{Parens: core.ParenMode(rapid.IntRange(0, 2).Draw(t, "parens")), Choose: func(n int, l string) int { return rapid.IntRange(0, n-1).Draw(t, l) }}
 	c.Source = p.Print(x)
 	c.P["opt"] = rapid.Bool().Draw(t, "opt")
+	c.P["ptrenv"] = rapid.IntRange(0, 3).Draw(t, "ptrenv") == 0
 	dir := ""
 	if rapid.IntRange(0, 2).Draw(t, "dir") == 0 {
 		switch {
